@@ -23,6 +23,15 @@ struct RegIf<false, T> {
 };
 
 #define REGQ(...) RegIf<(__COUNTER__ % NSHARDS) == SHARD, __VA_ARGS__>::go(l);
+template <bool On, class T>
+struct RegRefIf {
+  static void go(std::vector<TypeOps>& l) { l.push_back(make_ops<T, RefHolder<T>>()); }
+};
+template <class T>
+struct RegRefIf<false, T> {
+  static void go(std::vector<TypeOps>&) {}
+};
+#define REGREF(...) RegRefIf<(__COUNTER__ % NSHARDS) == SHARD, __VA_ARGS__>::go(l);
 #ifdef THOROUGH
 #define REGT(...) REGQ(__VA_ARGS__)
 #else
@@ -53,6 +62,9 @@ inline void register_universe(std::vector<TypeOps>& l) {
   REGQ(std::size_t) REGQ(int) REGQ(float) REGQ(double)
   REGQ(EU8) REGQ(EI16) REGQ(EU32) REGQ(EI64) REGQ(EU64)
   REGQ(string) REGQ(std::u16string) REGQ(std::u32string) REGQ(std::wstring)
+  // std::reference_wrapper<T>: the library is handed the wrapper, the referent lives next to it
+  REGREF(i32) REGREF(u64) REGREF(string) REGREF(float) REGREF(vector<u8>) REGREF(vector<string>) REGREF(S2<u8, string>)
+  REGREF(T2<u8, string>) REGREF(Optional<i32>) REGREF(map<i32, string>)
   // ---------------------------------------------------------------- D1: vectors
   REGQ(vector<u8>) REGQ(vector<i16>) REGQ(vector<u32>) REGQ(vector<i64>) REGQ(vector<char>) REGQ(vector<float>)
   REGQ(vector<EI16>) REGQ(vector<string>) REGT(vector<i8>) REGT(vector<u16>) REGT(vector<i32>) REGT(vector<u64>)
